@@ -301,3 +301,43 @@ mutant('C06-R4-park-after-unlock', ['C06', 'C20'], ['C06.R4|park'],
                 me.reclaim_written_frame(&self.send_buffer, dst)''', '''                let mut me = self.inner.lock().unwrap();
                 me.actions.task = Some(cx.waker().clone());
                 me.reclaim_written_frame(&self.send_buffer, dst)''')])
+
+# ---------------------------------------------------------------- C07
+mutant('C07-R2-recv-eof-skips-send-half', ['C07'], ['C07.R2|recv_eof|send-closer'],
+       'Inner::recv_eof no longer resets the send half of every stream: poll_capacity / poll_reset waiters hang after EOF',
+       [(S + 'streams.rs', '''                actions.recv.recv_eof(stream);
+
+                // This handles resetting send state associated with the
+                // stream
+                actions.send.handle_error(send_buffer, stream, counts);''', '''                actions.recv.recv_eof(stream);
+                let _ = (&send_buffer, &counts);''')])
+mutant('C07-R3-poll-capacity-parks-on-closed-stream', ['C07', 'C16'], ['C07.R3|park|proto::streams::send::Send::poll_capacity'],
+       'Send::poll_capacity parks without checking that the stream can still send',
+       [(S + 'send.rs', '''        if !stream.state.is_send_streaming() {
+            return Poll::Ready(None);
+        }
+
+        if !stream.send_capacity_inc {''', '''        if !stream.send_capacity_inc {''')])
+mutant('C07-R4-send-request-ignores-conn-error', ['C07'], ['C07.R4|entry|send_request'],
+       'Streams::send_request no longer fails after the connection ended',
+       [(S + 'streams.rs', '''        me.actions.ensure_no_conn_error()?;
+        me.actions.send.ensure_next_stream_id()?;
+
+        // The `pending` argument''', '''        me.actions.send.ensure_next_stream_id()?;
+
+        // The `pending` argument''')])
+mutant('C07-R5-connection-drop-silent', ['C07'], ['C07.R5|connection-drop'],
+       'dropping the connection no longer tells the streams',
+       [('src/proto/connection.rs', '''        let _ = self.inner.streams.recv_eof(true);''', '''''')])
+mutant('C07-R1-go-away-from-user-silent', ['C07'], ['C07.R1|go_away_from_user'],
+       'abrupt user shutdown does not notify the streams',
+       [('src/proto/connection.rs', '''        // Notify all streams of reason we're abruptly closing.
+        self.streams.handle_error(Error::user_go_away(e));''', '''''')])
+mutant('C07-R6-reset-after-eos-drops-data', ['C07', 'C09'], ['C07.R6|after-reset', 'C09.R1|recv_reset'],
+       'a reset after END_STREAM makes buffered data unreadable (0.4.16 fix reverted)',
+       [(S + 'state.rs', '''                self.inner = Closed(if recv_end_stream {
+                    Cause::ErrorAfterEndStream(error)
+                } else {
+                    Cause::Error(error)
+                });''', '''                let _ = recv_end_stream;
+                self.inner = Closed(Cause::Error(error));''')])
